@@ -469,6 +469,30 @@ def generate(rnd, n_books=1, n_sheets=2, n_const=14, n_formula=12, rows=6, cols=
                         free.remove(h)
                         wb.cells[h] = ('f', ('bin', '+', pe, ('lit', 0)) if pe[0] == 'ref' else pe)
                         defined.append(h)
+                    # a probe reading a rectangle that lies partly over the spill (not over its first cell) and partly beyond it
+                    hosts = [x for x in free if x not in never and x not in spill_cells and (x[0], x[2]) != col_reserved]
+                    if hosts and rnd.random() < 0.6:
+                        ext = rnd.randint(1, 2)
+                        if R > 1 and (C == 1 or rnd.random() < 0.5):
+                            i0 = rnd.randint(1, R - 1); j0 = rnd.randint(0, C - 1)
+                            sub = (a[0], a[1] + i0, min(rows, a[1] + R - 1 + ext), a[2] + j0, a[2] + rnd.randint(j0, C - 1))
+                        elif C > 1:
+                            j0 = rnd.randint(1, C - 1); i0 = rnd.randint(0, R - 1)
+                            sub = (a[0], a[1] + i0, a[1] + rnd.randint(i0, R - 1), a[2] + j0, min(cols, a[2] + C - 1 + ext))
+                        else:
+                            sub = None
+                        if sub is not None:
+                            h = rnd.choice(hosts)
+                            cs = [(sub[0], i, j) for i in range(sub[1], sub[2] + 1) for j in range(sub[3], sub[4] + 1)]
+                            ok = h not in cs and all((x in wb.cells and x in defined_set()) or x in rect or (x not in wb.cells and x not in spill_cells) for x in cs)
+                            ok = ok and any(x not in rect for x in cs) and (sub[0], sub[3]) != col_reserved and not (sub[3] <= col_reserved[1] <= sub[4] and sub[0] == col_reserved[0])
+                            if ok:
+                                for x in cs:
+                                    if x not in wb.cells and x not in rect:
+                                        never.add(x)
+                                free.remove(h)
+                                wb.cells[h] = ('f', ('call', rnd.choice(['SUM', 'COUNT', 'MAX']), [('ref', sub)]))
+                                defined.append(h)
                     continue
         a = rnd.choice(cand)
         free.remove(a)
